@@ -59,7 +59,7 @@ struct LockEngine : Engine {
 			p.ntasks = 2 + (int)rng.below(3);
 			p.knobs["nlocks"] = 1 + (int)rng.below(2);
 			// aged lock: a ticket lock that has been acquired ~2^32 times, so that the counters wrap during the run
-			if (p.cfg == CFG_TICKET && rng.chance(2, 5)) p.knobs["age"] = (int64_t)(0xFFFFFFFFu - (uint32_t)rng.below(4));
+			if (p.cfg == CFG_TICKET && rng.chance(2, 5)) p.knobs["age"] = (int64_t)((rng.chance(1, 2) ? 0xFFFFFFFFu : 0x7FFFFFFFu) - (uint32_t)rng.below(4)); // just below the 2^32 wrap or the 2^31 sign flip
 			for (int t = 1; t <= p.ntasks; t++) {
 				int n = 1 + (int)rng.below(maxops);
 				for (int i = 0; i < n; i++) {
